@@ -23,13 +23,14 @@ import (
 // and never touches the network. It is kept real because the library stores it,
 // reads its state (connection monitor) and closes it.
 type simConn struct {
-	cc      *grpc.ClientConn
-	target  string
-	store   int
-	gen     int // pool generation of this target (how many pools were dialled before)
-	idx     int // index inside the pool
-	uid     string
-	closed  bool // Close was observed
+	cc        *grpc.ClientConn
+	target    string
+	store     int
+	gen       int // pool generation of this target (how many pools were dialled before)
+	idx       int // index inside the pool
+	uid       string
+	closed    bool // Close was observed
+	connected bool // the first waitConnReady of this connection has been answered
 	// after a break the connection stays unusable for a while: until the instant
 	// notReadyUntil waitConnReady fails, and the next failN creations of a stream
 	// fail, counted separately for every forwarding target, so that the outcome
@@ -42,9 +43,9 @@ type simConn struct {
 	failEpoch     int
 	failN         int
 	pos           map[string]*posFail
-	breaks  int
-	streams []*simStream
-	seen    []seenID // request ids the server side of this connection has received
+	breaks        int
+	streams       []*simStream
+	seen          []seenID // request ids the server side of this connection has received
 }
 
 type posFail struct{ epoch, left int }
@@ -70,20 +71,20 @@ type outResp struct {
 
 // simStream implements tikvpb.Tikv_BatchCommandsClient.
 type simStream struct {
-	w       *world
-	conn    *simConn
-	fwd     string
-	connIdx string
-	uid     string
-	inbox   []recvItem
-	dead    error // set once: every later Recv / Send fails
-	notify  chan struct{}
-	out     []outResp
+	w        *world
+	conn     *simConn
+	fwd      string
+	connIdx  string
+	uid      string
+	inbox    []recvItem
+	dead     error // set once: every later Recv / Send fails
+	notify   chan struct{}
+	out      []outResp
 	flushing bool
-	sends   int
-	flushes int
-	diedAt  time.Duration
-	bornAt  time.Duration
+	sends    int
+	flushes  int
+	diedAt   time.Duration
+	bornAt   time.Duration
 }
 
 var _ tikvpb.Tikv_BatchCommandsClient = (*simStream)(nil)
@@ -535,6 +536,23 @@ func (w *world) waitReady(cc *grpc.ClientConn, timeout time.Duration) error {
 	c := w.conns[cc]
 	if c == nil {
 		return fmt.Errorf("batchsim: unknown connection")
+	}
+	if len(c.streams) == 0 && !c.connected && !w.healthy && w.sc.Net.SlowConnect > 0 {
+		// The first wait of a connection: no stream and therefore no receive loop of this connection exists yet, so
+		// nobody but the send loop (which is calling us with the send lock held) can ask for that lock - simulated
+		// time may pass here. Callers whose time-out ends meanwhile give up while their request sits in the built batch.
+		c.connected = true
+		if w.fates.Intn("slowconn:"+c.uid, 1000) < w.sc.Net.SlowConnect {
+			d := time.Duration(1+w.fates.Intn("slowconnd:"+c.uid, 80)) * time.Millisecond
+			if d >= timeout {
+				d = timeout / 2
+			}
+			w.sim.Count("fault.slow-first-connect")
+			w.tracef("waitConnReady %s: first connect takes %v", c.uid, d)
+			w.mu.Unlock()
+			time.Sleep(d)
+			w.mu.Lock()
+		}
 	}
 	if c.closed || cc.GetState() == connectivity.Shutdown {
 		return context.DeadlineExceeded
